@@ -191,6 +191,7 @@ class Check(object):
         self.replayed = 0
         self.witnesses = {}
         self.outcomes = {}
+        self.allow_truncation = False   # a check may accept executions cut at the step budget (their prefix is judged)
 
     # ---- TLC model checking of an implementation spec against its contract
     def mc(self, module, cfg, workers=16, timeout=1800, **kw):
@@ -224,7 +225,7 @@ class Check(object):
             if crashed and len(self.machinery_errors) < 5:
                 self.machinery_errors.append("scenario main thread crashed in %s %s: %s" % (
                     t["scen"], json.dumps(t["params"])[:300], crashed[0][1][:300]))
-            if oc == "max-steps" and len(self.machinery_errors) < 5:
+            if oc == "max-steps" and not self.allow_truncation and len(self.machinery_errors) < 5:
                 self.machinery_errors.append("execution truncated at the step budget in %s %s" % (
                     t["scen"], json.dumps(t["params"])[:300]))
         traces = [r["trace"] for _, r in good]
